@@ -178,6 +178,7 @@ func (td *TraitDesc) extractUnderlying() (underlying, bool) {
 	switch v.Kind() {
 	case
 		types.UntypedInt,
+		types.UntypedRune,
 		types.Int,
 		types.Int8,
 		types.Int16,
